@@ -585,6 +585,19 @@ func main() {
 		keyCase(seed, true)
 		keyCase(seed, false)
 	}
+	// keys whose coordinates have leading zero bytes (1 in 256 random keys): fixed-width serialisation edge.
+	// Scan small scalars and keep those with a short X or Y.
+	edge := 0
+	for k := 1; k <= 6000 && edge < pick(6, 24); k++ {
+		seed := make([]byte, 32)
+		seed[30], seed[31] = byte(k>>8), byte(k)
+		_, pub := bec.PrivKeyFromBytes(bec.S256(), seed)
+		if len(pub.X.Bytes()) < 32 || len(pub.Y.Bytes()) < 32 {
+			edge++
+			keyCase(seed, true)
+			keyCase(seed, false)
+		}
+	}
 	for _, l := range []int{0, 1, 20, 32, 34, 65} {
 		scriptKeyCase(r.Bytes(l))
 	}
